@@ -93,7 +93,7 @@ CHECKS["C13"] = {
              "alphabet weighted to '%', '=', hex/non-hex, the gateway's body readers with dishonest length fields / corrupt base64 / bodies around the limit, and the gateway's "
              "error-code extraction on hostile error values (nil Unwrap/Cause, cycles, wrong-arity Code methods, typed nil), and a live server (manager + stream dispatch) fed 1..20 arbitrary frames by a wire-level peer "
              "(plausible and arbitrary id progressions, kinds 0..8/33/63, control bits, unfinished packets, junk payloads, raw garbage; optionally after a well-formed invoke) which must never panic, and must shut down completely when the peer disconnects. "
-             "The thorough tier adds coverage-guided native fuzzing (go test -fuzz) of ParseFrame, the reader, metadata Decode, UnmarshalError and the metadata header parser with the same oracles inside the targets. stats_stress: one server with CollectStats serves 2..6 connections at once over net.Pipe on real goroutines, 20..200 calls each under rpc names chosen by the peers (shared by all, by two, or never seen before); no input takes the process down (a runtime abort such as 'concurrent map read and map write' kills the shard and is reported), every call is answered, the statistics hold exactly one entry per name; in the thorough tier also under the race detector. Non-trivial: the input reaches past the first validation branch (>= 4 bytes for frames/reader, >= 2 bytes for metadata, >= 1 escape for headers, any error outcome for the gateway)."),
+             "The thorough tier adds coverage-guided native fuzzing (go test -fuzz) of ParseFrame, the reader, metadata Decode, UnmarshalError and the metadata header parser with the same oracles inside the targets. stats_stress: one server with CollectStats serves 2..6 connections at once over net.Pipe on real goroutines, 20..200 calls each under rpc names chosen by the peers (shared by all, by two, or never seen before); no input takes the process down (a runtime abort such as 'concurrent map read and map write' kills the shard and is reported); in the thorough tier also under the race detector (what the calls return and what the statistics hold is recorded as labels, not judged: C13 is about crashes). Non-trivial: the input reaches past the first validation branch (>= 4 bytes for frames/reader, >= 2 bytes for metadata, >= 1 escape for headers, any error outcome for the gateway)."),
     "assumptions": ["packet dispatch in stream and manager is driven by a wire-level peer sending arbitrary frame sequences (sub-check manager_frames); a panic on a library goroutine kills the shard and is reported from its stack trace",
                     "allocation is bounded by observing runtime.MemStats.TotalAlloc around the call (gateway) and buffer capacities / largest requested read (reader)"],
     "subs": [
@@ -127,7 +127,7 @@ CHECKS["C10"] = {
              "code attached under 0..6 wrapper layers of seven kinds incl. opaque ones and a second, different code attached further out (the outermost visible code is the error's code); hostile shapes) through drpcerr.Code, MarshalError, UnmarshalError: layout is 8-byte big-endian code + message, "
              "message and code survive, Code finds the attached code at any transparent depth (and 0 under an opaque layer). Non-trivial: depth >= 2, code >= 2^32, message >= 128 bytes or with special bytes, or a hostile shape. "
              "End-to-end half: a hand-written service description with the four method shapes is registered with the real mux and served over the simulated connection under drawn delivery schedules; the handler sends k in 0..4 messages and then returns nil or an error from the grammar (also together with a response value), "
-             "or the dispatcher itself fails (an rpc name the server does not know, drawn from names with '%', quotes, NUL and non-UTF-8 bytes - expected text 'protocol error: unknown rpc: ' + the quoted name, fixed independently of the mux; or a request the encoding rejects - expected text obtained by calling the mux directly with a stub stream). The client error's Error() must equal the handler error's Error() byte for byte, its code the spec-derived code, the k messages arrive first in order, a nil-returning handler never yields a client error, and a probe RPC succeeds afterwards. "
+             "or the dispatcher itself fails (an rpc name the server does not know, drawn from names with '%', quotes, NUL and non-UTF-8 bytes - or a request the encoding rejects; the expected text is what the mux itself returns for that call, obtained with a stub stream: the statement fixes that the dispatcher's failure arrives unchanged, not its wording). The client error's Error() must equal the handler error's Error() byte for byte, its code the spec-derived code, the k messages arrive first in order, a nil-returning handler never yields a client error, and a probe RPC succeeds afterwards. "
              "Generated-stubs half (C10/generated_stubs): for a drawn service (1..2 services, 1..5 methods of any shape, three protolibs) the plugin built from /repo generates client and server; the driver's handlers fail every method on request (drawn text, code, after 0..3 responses) and, on a second connection, every method is called on a server that does not know the service with a request of 0..2 MiB "
              "(the dispatcher fails the call as soon as it has the invoke, possibly while the client still writes the request). The error the *generated client* hands to its caller (from the stub, Recv or CloseAndRecv) must have exactly the handler's / dispatcher's text and code, responses sent before the failure arrive first, and every method round-trips afterwards."),
     "assumptions": ["chains deeper than 99 layers are don't-care for the code (the unwrap loop is bounded at 100); only termination and message identity are asserted there"],
